@@ -403,9 +403,29 @@ pub fn case_passthrough(bytes: &[u8], _s: &[u8], ctx: &mut Ctx) -> Result<(), Fa
     let drops = double.drops.clone();
     let direct = LogRecorder::new(8, &log_d);
     let (wrapped, handle) = RecoverableRecorder::new(double).__verif_build();
+    // some calls are made from a destructor that runs while the thread unwinds from a panic (a scope guard
+    // reporting a metric): the handle is alive, so they count like any other
+    let unwind_mask = src.below(256);
+    struct OnDrop<F: FnMut()>(F);
+    impl<F: FnMut()> Drop for OnDrop<F> {
+        fn drop(&mut self) {
+            (self.0)()
+        }
+    }
     for (i, c) in calls[..n_alive].iter().enumerate() {
-        c.apply(&wrapped);
-        c.apply(&direct);
+        if unwind_mask & (1 << i) != 0 && unwind_mask >= 128 {
+            ctx.nontrivial("call-made-while-unwinding");
+            let _ = std::panic::catch_unwind(std::panic::AssertUnwindSafe(|| {
+                let _g = OnDrop(|| {
+                    c.apply(&wrapped);
+                    c.apply(&direct);
+                });
+                std::panic::resume_unwind(Box::new("harness: unwinding past a guard that emits"));
+            }));
+        } else {
+            c.apply(&wrapped);
+            c.apply(&direct);
+        }
         let (w, d) = (ops_of(&log_w), ops_of(&log_d));
         ensure!(w == d, "emission-while-alive-not-passed-through", "call {} ({:?}) through the wrapper, handle alive: the wrapped recorder logged {:?}, a recorder called directly logs {:?}", i, c, w.iter().skip(d.len().min(w.len()).saturating_sub(3)).collect::<Vec<_>>(), d.iter().skip(d.len().saturating_sub(3)).collect::<Vec<_>>());
     }
